@@ -13,9 +13,9 @@ ID = "C07"
 LEVEL = "model_checking"
 RULE = ("pool of 8 inputs over one bin table (empty, one pixel, full row, diagonal, two disjoint supports, two identical supports "
         "with different values; count int32 + score float64): EVERY sequence of k=1,2 inputs and every multiset/sequence of 3 x "
-        "mergebuf x column sets x aggregation x storage mode x fixed/variable table, against dict-sum reference; nesting: every "
+        "mergebuf x column sets x aggregation (sum, max, min, mean, count, nunique, a callable) x storage mode x fixed/variable table, against dict-sum reference; nesting: every "
         "triple of a 4-pool merged as ((a,b),c), (a,(b,c)) and (a,b,c); refusals: every ordered pair of 9 mutually incompatible "
-        "coolers; dtype limits: sums exactly at and one past the int32 / uint16 maximum. Non-trivial: >=2 inputs with >=1 pixel in "
+        "coolers; dtype limits: sums exactly at and one past the int32 / uint16 maximum, and an explicitly requested output dtype of other signedness / width (uint32->int32, int32->uint32/uint64, int64->int32/uint8, uint8->int8) with aggregates on both sides of its range. Non-trivial: >=2 inputs with >=1 pixel in "
         "total, or a refusal/limit case. Distinct by construction.")
 BOUNDS = {"quick": "k<=2 all sequences + 120 multisets of 3, mergebuf {1,2,5,1e6}; agg/column sweep on k<=2",
           "thorough": "all 512 sequences of 3 x mergebuf {1,2,5,1e6}; agg/column sweep on k<=3 multisets; square + variable with k<=3"}
@@ -54,6 +54,8 @@ def pool_uri(q, symm, tab):
 AGGS = [  # (columns, agg dict or None)
     (["count"], None), (["count", "score"], None), (["score"], None), (["count"], {"count": "max"}), (["count"], {"count": "min"}),
     (["score"], {"score": "mean"}), (["count", "score"], {"count": "min", "score": "max"}),
+    # aggregates that do NOT return a single value unchanged (a pixel held by one input only must still be aggregated)
+    (["count"], {"count": "count"}), (["count"], {"count": "nunique"}), (["count"], {"count": "CALLABLE:sum+1000"}),
 ]
 
 
@@ -65,7 +67,7 @@ def units(tier):
         yield {"leg": "merge", "seq": s, "symm": True, "tab": "F", "bufs": [1, 2, 5, 10 ** 6], "aggs": [1]}
     sweep = seqs + ([list(s) for s in itertools.combinations_with_replacement(range(8), 3)] if th else [])
     for s in sweep:
-        yield {"leg": "merge", "seq": s, "symm": True, "tab": "F", "bufs": [1, 10 ** 6], "aggs": [0, 2, 3, 4, 5, 6]}
+        yield {"leg": "merge", "seq": s, "symm": True, "tab": "F", "bufs": [1, 10 ** 6], "aggs": [0, 2, 3, 4, 5, 6, 7, 8, 9]}
     for s in seqs + (tri if th else []):
         yield {"leg": "merge", "seq": s, "symm": False, "tab": "F", "bufs": [1, 10 ** 6], "aggs": [1]}
         yield {"leg": "merge", "seq": s, "symm": True, "tab": "V", "bufs": [2], "aggs": [1]}
@@ -75,6 +77,7 @@ def units(tier):
         yield {"leg": "refuse", "a": a}
     for dt in ("int32", "uint16"):
         yield {"leg": "limit", "dtype": dt}
+    yield {"leg": "limit-cross"}
     yield {"leg": "cli"}
 
 
@@ -100,14 +103,17 @@ def _merge_case(R, unit, only):
             R.cls("merge:k%d" % len(seq))
             want = {}
             for c in cols:
-                f = (agg or {}).get(c, "sum")
+                f = (agg or {}).get(c, "sum").replace("CALLABLE:", "")
                 m = models.ref_merge([{k: v[c] for k, v in p.items()} for p in pix], f)
                 for k, v in m.items():
                     want.setdefault(k, {})[c] = v
             out = scratch.fresh()
             try:
                 try:
-                    cooler.merge_coolers(out, uris, mergebuf=buf, columns=list(cols), agg=dict(agg) if agg else None)
+                    aggarg = None
+                    if agg:
+                        aggarg = {c: ((lambda x: x.sum() + 1000) if f == "CALLABLE:sum+1000" else f) for c, f in agg.items()}
+                    cooler.merge_coolers(out, uris, mergebuf=buf, columns=list(cols), agg=aggarg)
                 except Exception as e:
                     R.mismatch("merge-raises:" + type(e).__name__, inner, f"{e!s:.300}")
                     continue
@@ -207,6 +213,50 @@ def _refuse(R, a, only):
                 scratch.rm(out)
 
 
+def _limit_cross(R, only):
+    """output dtype requested explicitly and different from the input dtype: same width other signedness, wider, narrower"""
+    import cooler
+    bins = alpha.table_bins(fx.TABLE_F, "abc")
+    R.add("states")
+    R.add("traces")
+    kk = 0
+    cases = [("uint32", "int32", (2 ** 31 - 5, 10)), ("uint32", "int32", (2 ** 31 - 5, 4)), ("int32", "uint32", (-7, 3)), ("int32", "uint32", (-7, 9)),
+             ("int32", "uint64", (-1, 0)), ("int64", "int32", (2 ** 31, 0)), ("int64", "int32", (2 ** 31 - 1, 0)), ("uint16", "int16", (2 ** 15 - 1, 1)),
+             ("int64", "uint8", (200, 55)), ("int64", "uint8", (200, 56)), ("uint8", "int8", (100, 27)), ("uint8", "int8", (100, 28))]
+    for (din, dout, parts) in cases:
+        for buf in (1, 10 ** 6):
+            kk += 1
+            inner = {"in": din, "out": dout, "parts": list(parts), "mergebuf": buf}
+            if only is not None and only != inner:
+                continue
+            R.order = (R.order[0], kk)
+            R.ev(1, 1)
+            R.add("transitions")
+            R.cls("limit")
+            total = sum(parts)
+            info = np.iinfo(np.dtype(dout))
+            fits = info.min <= total <= info.max
+            uris = []
+            for q, v in enumerate(parts):
+                pix = {(0, 1): {"count": v}, (1, 1): {"count": 1}} if v else {(1, 1): {"count": 1}}
+                uris.append(fx.make(("c07limx", din, v), bins, pix, cols=("count",), count_dtype=np.dtype(din)))
+            out = scratch.fresh()
+            try:
+                try:
+                    cooler.merge_coolers(out, uris, mergebuf=buf, dtypes={"count": np.dtype(dout)})
+                except Exception:
+                    R.cls("limit:raised")
+                    if fits:
+                        R.mismatch("fitting-aggregate-refused", inner, f"total={total} fits {dout}")
+                    continue
+                got, rd = fx.read(out)
+                g = got.get((0, 1), {}).get("count")
+                if g != total:
+                    R.mismatch("stored-value-silently-differs-from-aggregate", inner, f"stored={g} exact={total} dtype={rd['dtypes'].get('count')} sum-attr={rd['attrs'].get('sum')}")
+            finally:
+                scratch.rm(out)
+
+
 def _limit(R, dtname, only):
     import cooler
     dt = np.dtype(dtname)
@@ -289,6 +339,8 @@ def run(unit, R, tier, only=None):
         _refuse(R, unit["a"], only)
     elif leg == "limit":
         _limit(R, unit["dtype"], only)
+    elif leg == "limit-cross":
+        _limit_cross(R, only)
     elif leg == "cli":
         _cli(R, only)
     else:
